@@ -4,6 +4,7 @@ import py_ballisticcalc.unit as U
 from py_ballisticcalc.unit import Unit
 
 from pyvc.contract import contract, Real, Obj, Enum, Const, OneOf
+from pyvc.rt import Struct
 from .shapes import Q, QVel, QTemp, QDist, QAng, LINEAR_ANGULAR, TANGENT_ANGULAR
 
 MF = 'py_ballisticcalc/munition.py'
@@ -78,7 +79,7 @@ contract(f'{MF}::Sight.get_trajectory_adjustment', props=('C19',),
          params=dict(self=Obj(M.Sight, focal_plane=Enum('FFP', 'SFP', 'LWIR'), scale_factor=QDist(Unit.Yard, value=POS),
                               h_click_size=Q(U.Angular, Unit.Mil, value=SMALL),
                               v_click_size=Q(U.Angular, Unit.MOA, value=SMALL)),
-                     trajectory_point=Obj(object, distance=QDist(Unit.Foot, value=POS), drop_adj=QAng(Unit.Radian),
+                     trajectory_point=Obj(Struct, distance=QDist(Unit.Foot, value=POS), drop_adj=QAng(Unit.Radian),
                                           windage_adj=QAng(Unit.Radian)),
                      magnification=Real(lo=0.5, hi=60)),
          requires=[('effective-click-within-a-turn',
